@@ -530,6 +530,8 @@ func shapesFor(c cellT) []shapeT {
 		{"anyOf-integer", `{"anyOf":[{"type":"integer","maximum":1},{"type":"integer","minimum":5}]}`, []string{"1", "5", "3"}},
 		{"oneOf-string", `{"oneOf":[{"type":"string","maxLength":1},{"type":"string","minLength":3}]}`, []string{`"a"`, `"abc"`, `"ab"`}},
 		{"allOf-typeless-member", `{"allOf":[{"type":"integer"},{"maximum":5},{"minimum":1}]}`, []string{"1", "5", "6", "0"}},
+		// an array member in front of a string member: text that is no list of integers is the string
+		{"anyOf-array-first", `{"anyOf":[{"type":"array","items":{"type":"integer"}},{"type":"string"}]}`, arrayFirstValues(c)},
 		// one component reached twice on routes that are not cycles (a diamond), and as a fallback
 		{"integer-diamond", `{"allOf":[{"$ref":"#/components/schemas/Bounded"},{"$ref":"#/components/schemas/Positive"}]}`, []string{"0", "5", "100", "-1", "101"}},
 		{"integer-fallback", `{"anyOf":[{"$ref":"#/components/schemas/Positive"},{"$ref":"#/components/schemas/Num"}]}`, []string{"7", "-7", "0"}},
@@ -557,6 +559,15 @@ func shapesFor(c cellT) []shapeT {
 		}
 	}
 	return shapes
+}
+
+// arrayFirstValues: the cookie cell with explode=true cannot carry arrays at all (open finding), so only
+// the string values are sent there
+func arrayFirstValues(c cellT) []string {
+	if c.in == "cookie" && c.explode != "false" {
+		return []string{`"abc"`, `"x-y_z"`}
+	}
+	return []string{`"abc"`, `[3,4]`, `"x-y_z"`, `[7]`}
 }
 
 // labelSafe: under label, fractional numbers collide with the delimiter
@@ -720,6 +731,8 @@ func gen(t *rapid.T) Case {
 		c.Value = jv.Canon(drawPrim("number"))
 	case sh.name == "boolean":
 		c.Value = jv.Canon(drawPrim("boolean"))
+	case sh.name == "anyOf-array-first":
+		c.Value = rapid.SampledFrom(sh.values).Draw(t, "tablevalue")
 	case sh.name == "string", sh.name == "oneOf-string", sh.name == "string-enum":
 		c.Value = jv.Canon(drawPrim("string"))
 	default:
